@@ -246,8 +246,27 @@ func init() {
 		g := newPrng(c.seed, 23)
 		kinds := map[string]int{}
 		var nOversize, nExact, nMulti int
-		for i := 0; i < c.n; i++ {
-			w := genWireCase(g)
+		// boundary cases first: frames whose content length sits exactly on / next to every msgpack integer-width
+		// boundary of the length prefix (fixint/uint8, uint8/uint16, uint16/uint32)
+		var boundary []*wireCase
+		for _, target := range []int{127, 128, 129, 255, 256, 257, 65535, 65536, 65537} {
+			for _, kind := range []string{"call", "notify", "resp"} {
+				if c.tier != "thorough" && target > 60000 && kind != []string{"call", "notify", "resp"}[(int(c.seed)+target)%3] {
+					continue // quick tier: one kind per large boundary (64 KiB operation lines)
+				}
+				if w := boundaryCase(c.t, kind, target); w != nil {
+					boundary = append(boundary, w)
+				}
+			}
+		}
+		fmt.Printf("STAT boundary_cases %d\n", len(boundary))
+		for i := 0; i < c.n+len(boundary); i++ {
+			var w *wireCase
+			if i < len(boundary) {
+				w = boundary[i]
+			} else {
+				w = genWireCase(g)
+			}
 			kinds[w.kind]++
 			// first run with a generous limit to learn the frame's size
 			big := runWire(c.t, w, 1<<24)
@@ -264,6 +283,9 @@ func init() {
 			// limits around the content size
 			var limits []int32
 			sel := g.intn(4)
+			if i < len(boundary) {
+				sel = 1 // limit = content: the frame must still go out, with the exact prefix
+			}
 			if w.kind == "cancel" {
 				sel = 0 // a cancellation is smaller than its call: it cannot be oversize once the call fitted
 			}
@@ -387,6 +409,37 @@ func init() {
 		}
 		fmt.Printf("STAT oversize_cases %d\nSTAT fitting_cases %d\nSTAT multimap_readback %d\n", nOversize, nExact, nMulti)
 	}
+}
+
+// boundaryCase: an uncompressed message of the given kind whose frame content is exactly `target` bytes long
+// (the padding is found by probing the real encoder; the prefix is parsed independently of it).
+func boundaryCase(t *testing.T, kind string, target int) *wireCase {
+	w := &wireCase{kind: kind, seq: 5, method: knownMethods[0]}
+	L := target - 24
+	if L < 0 {
+		L = 0
+	}
+	for iter := 0; iter < 8; iter++ {
+		pad := strings.Repeat("x", L)
+		if kind == "resp" {
+			w.res = pad
+		} else {
+			w.arg = pad
+		}
+		r := runWire(t, w, 1<<24)
+		if len(r.writes) != 1 {
+			return nil
+		}
+		content := len(r.writes[0]) - prefixLen(r.writes[0])
+		if content == target {
+			return w
+		}
+		L += target - content
+		if L < 0 {
+			return nil
+		}
+	}
+	return nil
 }
 
 func (w *wireCase) opText() string { return w.opTextBlob(nil) }
